@@ -18,6 +18,7 @@ HALVES = {
     "C10": ("C10server", "c10"),
     "C11": ("C11server", "c11"),
     "C14": ("C14server", "c14"),
+    "C18": ("C18server", "c18"),
 }
 
 
